@@ -52,7 +52,7 @@ Qed.
 
 (* message: reader and writer errors and every panic carry the user's message *)
 Theorem message_preserved s m :
-  (m = MPanic \/ ((s = SReader \/ s = SWriter) /\ (m = MError \/ m = MTemp))) -> msg_carried s m = true.
+  (m = MPanic \/ ((s = SReader \/ s = SWriter) /\ m = MError)) -> msg_carried s m = true.
 Proof.
-  intros [Hm|[[Hs|Hs] [Hm|Hm]]]; subst; try reflexivity; destruct s; reflexivity.
+  intros [Hm|[[Hs|Hs] Hm]]; subst; try reflexivity; destruct s; reflexivity.
 Qed.
